@@ -121,6 +121,40 @@ def run(run, thorough):
     by_id = {id(s): m for s, m in zip(scns, metas)}
     for scn, res in out:
         judge(run, scn, by_id[id(scn)], res)
+    # several names for one thing in ONE invocation: a link together with its target, two links to the same target, a chain.  Each
+    # argument names its own directory entry; every one of them must be trashed (as a link where it is a link), none skipped
+    import itertools
+    tog = []
+    for tk, order, n in itertools.product(('file', 'dir', 'dangling'), ('link-first', 'target-first', 'two-links', 'chain'), (0, 1)):
+        home = '/home/u'
+        nodes = scen.canary() + [['d', home + '/w', 0o755], ['f', home + '/w/tfile', 'tfile'], ['d', home + '/w/tdir', 0o755], ['f', home + '/w/tdir/in', 'in']]
+        target = {'file': home + '/w/tfile', 'dir': home + '/w/tdir', 'dangling': home + '/w/none'}[tk]
+        tspell = target if n == 0 else os.path.basename(target)
+        nodes += [['l', home + '/w/l1', tspell], ['l', home + '/w/l2', tspell if order != 'chain' else 'l1']]
+        if order == 'link-first':
+            args = [home + '/w/l1'] + ([target] if tk != 'dangling' else [home + '/w/l2'])
+        elif order == 'target-first':
+            args = ([target] if tk != 'dangling' else [home + '/w/l2']) + [home + '/w/l1']
+        else:
+            args = [home + '/w/l1', home + '/w/l2']
+        tog.append(({'tree': nodes, 'mounts': [], 'cwd': home + '/w', 'uid': 1000, 'env': {'HOME': home, 'TRASH_VOLUMES': '/'},
+                     'steps': [{'cmd': 'put', 'argv': ['--'] + args, 'now': [2024, 5, 6, 7, 8, 9, 0]}]}, args, target, tk))
+    outt = engine.run_all(run, 'together', [s for s, a, t, k in tog])
+    byt = {id(s): (a, t, k) for s, a, t, k in tog}
+    for scn, res in outt:
+        args, target, tk = byt[id(scn)]
+        before, o = res['before'], res['steps'][0]
+        after = o['after']
+        run.count('together-state')
+        left = [a for a in args if a in after]
+        pairs, strays, orphans = putlib.new_trash_items(before, after)
+        run.nontriv(('together', tk, tuple(os.path.basename(a) for a in args), o['exit'], len(pairs)))
+        if left or o['exit'] != 0 or len(pairs) != len(args) or strays or orphans:
+            run.fail('oracle', 'several names of one thing given in one invocation: not every named entry was trashed',
+                     {'scenario': scn, 'still_there': left, 'exit': o['exit'], 'new_entries': pairs, 'stderr': o['stderr'][-300:]},
+                     key='argument-skipped', section='together-state')
+        if target not in args and sandbox.subtree(after, target) != sandbox.subtree(before, target):
+            run.fail('oracle', 'the target of the links was touched', {'scenario': scn}, key='target-touched', section='together-state')
     # the known finding (shared with C01): '..' after a symlinked directory
     known = {'tree': [['d', '/home/u', 0o755], ['d', '/other/dir', 0o755], ['f', '/other/x', 'theirs'], ['f', '/home/u/x', 'mine'],
                       ['l', '/home/u/link', '/other/dir']], 'mounts': [], 'cwd': '/home/u', 'uid': 0,
